@@ -374,6 +374,11 @@ func (d *drv) docCase(stream string, doc []byte, hi int, ctxs map[string]json.Ra
 	}
 	compacted := mz.VerifCompacted()
 	views := mzrun.MapEntries(mz)
+	if stream == "replay" {
+		for k, v := range views {
+			fmt.Printf("replay: entry key=%s path=%v value=%s datatype=%q\n", k, v.Parts, docgen.RenderGoValue(v.Value), v.Datatype)
+		}
+	}
 	var res []*entryRes
 	for _, v := range views {
 		if v.Datatype == "" {
@@ -496,7 +501,7 @@ func (d *drv) addGroup(mz *merklize.Merklizer, compacted map[string]any, hi int,
 			if lang {
 				g.pair = false
 			}
-			if lit {
+			if lit && !mergedByJSONGold(g.docs, de) {
 				g.docs = append(g.docs, de)
 			}
 		}
@@ -527,6 +532,32 @@ func (d *drv) addGroup(mz *merklize.Merklizer, compacted map[string]any, hi int,
 		}
 	}
 	d.groups = append(d.groups, g)
+}
+
+// mergedByJSONGold: json-gold's node map drops a value object that compares equal
+// (same @type, Go == on @value) to an earlier one of the same property; for floats
+// that merges -0.0 into 0 (and vice versa) before any RDF literal exists.
+func mergedByJSONGold(prev []docElem, e docElem) bool {
+	for _, p := range prev {
+		if (p.declared == nil) != (e.declared == nil) || (p.declared != nil && *p.declared != *e.declared) || p.v.kind != e.v.kind {
+			continue
+		}
+		switch e.v.kind {
+		case 'n':
+			if math.Float64frombits(p.v.bits) == math.Float64frombits(e.v.bits) {
+				return true
+			}
+		case 'b':
+			if p.v.b == e.v.b {
+				return true
+			}
+		case 's':
+			if p.v.s == e.v.s {
+				return true
+			}
+		}
+	}
+	return false
 }
 
 // ---- recording of primitive oracle answers for one shard ----
@@ -733,7 +764,7 @@ func Run(cfg *common.Config) (*common.Report, error) {
 		}
 		return rep, d.writeShards()
 	}
-	nDoc := cfg.Pick(140, 3000)
+	nDoc := cfg.Pick(140, 1200)
 	for i := 0; i < nDoc; i++ {
 		doc := d.gen.Valid(1 + cfg.Rng.Intn(3))
 		d.syncContexts()
@@ -762,7 +793,7 @@ func Run(cfg *common.Config) (*common.Report, error) {
 			}
 		}
 	}
-	nGrid := cfg.Pick(80, 2500)
+	nGrid := cfg.Pick(80, 1000)
 	for i := 0; i < nGrid; i++ {
 		doc := gridDoc(cfg, i)
 		hi := i % len(d.hs)
